@@ -112,7 +112,7 @@ func VerifH_C04_implementation_limits() {
 	case 4: // a jump over 40000 instructions
 		src = "local n = ... if n then\n"
 		for i := 0; i < 14000; i++ {
-			src += "n = n + 1\n"
+			src += "n=n+1 "
 		}
 		src += "end return n"
 	}
